@@ -33,6 +33,8 @@ pub enum Tmo {
     None,
     Zero,
     Ms(u16),
+    /// below one millisecond: non-zero, due at the next tick of tokio's millisecond timer
+    Us(u16),
 }
 
 impl Tmo {
@@ -41,6 +43,7 @@ impl Tmo {
             Tmo::None => None,
             Tmo::Zero => Some(Duration::ZERO),
             Tmo::Ms(m) => Some(Duration::from_millis(m as u64)),
+            Tmo::Us(u) => Some(Duration::from_micros(u.clamp(1, 999) as u64)),
         }
     }
     fn ms(self) -> Option<u64> {
@@ -48,10 +51,12 @@ impl Tmo {
             Tmo::None => None,
             Tmo::Zero => Some(0),
             Tmo::Ms(m) => Some(m as u64),
+            // every clock movement is a whole number of milliseconds
+            Tmo::Us(_) => Some(1),
         }
     }
     fn nonzero(self) -> bool {
-        matches!(self, Tmo::Ms(m) if m > 0)
+        matches!(self, Tmo::Ms(m) if m > 0) || matches!(self, Tmo::Us(_))
     }
 }
 
@@ -109,6 +114,10 @@ pub struct Case {
     pub create: Vec<Out>,
     pub recycle: Vec<Out>,
     pub steps: Vec<Step>,
+    /// how the managed pool's timeouts reach the builder: 0 timeouts(), 1 the three setters in
+    /// the order wait / create / recycle, 2 in the order recycle / create / wait, 3 config()
+    #[serde(default)]
+    pub via: u8,
 }
 
 // ------------------------------------------------------------------ world
@@ -372,9 +381,10 @@ impl Model {
                     self.gets[g].phase = Phase::Waiting { deadline: None };
                     self.waiters.push_back(g);
                 }
-                Tmo::Ms(m) => {
+                Tmo::Ms(_) | Tmo::Us(_) => {
+                    let m = t.wait.ms().unwrap_or(1);
                     self.gets[g].phase = Phase::Waiting {
-                        deadline: Some(self.now + m as u64),
+                        deadline: Some(self.now + m),
                     };
                     self.waiters.push_back(g);
                 }
@@ -820,9 +830,19 @@ async fn run_managed_body(case: &Case, world: Arc<World>, out: &mut Outcome) {
     }
     let max = case.max_size as usize;
     // ---- build
-    let mut b = managed::Pool::<Mgr>::builder(Mgr { world: world.clone() })
-        .max_size(max)
-        .timeouts(case.pool_t.timeouts());
+    let b0 = managed::Pool::<Mgr>::builder(Mgr { world: world.clone() });
+    let pt = case.pool_t.timeouts();
+    let mut b = match case.via % 4 {
+        0 => b0.max_size(max).timeouts(pt),
+        1 => b0.max_size(max).wait_timeout(pt.wait).create_timeout(pt.create).recycle_timeout(pt.recycle),
+        2 => b0.recycle_timeout(pt.recycle).create_timeout(pt.create).wait_timeout(pt.wait).max_size(max),
+        _ => b0.config(managed::PoolConfig {
+            max_size: max,
+            timeouts: pt,
+            queue_mode: Default::default(),
+        }),
+    };
+    out.labels.push(format!("build-via:{}", case.via % 4));
     if case.runtime {
         b = b.runtime(Runtime::Tokio1);
     }
@@ -1308,11 +1328,11 @@ async fn run_unmanaged_body(case: &Case, out: &mut Outcome, trace: &mut Vec<Stri
                             waiters.push_back((g, None));
                             None
                         }
-                        Tmo::Ms(m) => {
+                        Tmo::Ms(_) | Tmo::Us(_) => {
                             if !case.runtime {
                                 Some("NoRuntimeSpecified")
                             } else {
-                                waiters.push_back((g, Some(now + m as u64)));
+                                waiters.push_back((g, Some(now + t.ms().unwrap_or(1))));
                                 None
                             }
                         }
@@ -1406,6 +1426,7 @@ fn tmo() -> BoxedStrategy<Tmo> {
         3 => Just(Tmo::None),
         2 => Just(Tmo::Zero),
         4 => prop_oneof![Just(10u16), Just(20), Just(30), Just(50)].prop_map(Tmo::Ms),
+        1 => prop_oneof![Just(1u16), Just(500), Just(999)].prop_map(Tmo::Us),
     ]
     .boxed()
 }
@@ -1467,9 +1488,10 @@ pub fn case(thorough: bool) -> BoxedStrategy<Case> {
                 outv(),
                 outv(),
                 prop::collection::vec(step(runtime), 1..=maxlen),
+                0u8..4,
             )
         })
-        .prop_map(|(unmanaged, runtime, max_size, pool_t, create, recycle, steps)| Case {
+        .prop_map(|(unmanaged, runtime, max_size, pool_t, create, recycle, steps, via)| Case {
             unmanaged,
             runtime,
             max_size,
@@ -1477,6 +1499,7 @@ pub fn case(thorough: bool) -> BoxedStrategy<Case> {
             create,
             recycle,
             steps,
+            via,
         })
         .boxed()
 }
@@ -1486,13 +1509,14 @@ pub fn decode(data: &[u8]) -> arbitrary::Result<Case> {
     use arbitrary::Unstructured;
     let mut u = Unstructured::new(data);
     fn tmo(u: &mut Unstructured) -> arbitrary::Result<Tmo> {
-        Ok(match u.int_in_range(0..=8u8)? {
+        Ok(match u.int_in_range(0..=9u8)? {
             0..=2 => Tmo::None,
             3 | 4 => Tmo::Zero,
             5 => Tmo::Ms(10),
             6 => Tmo::Ms(20),
             7 => Tmo::Ms(30),
-            _ => Tmo::Ms(50),
+            8 => Tmo::Ms(50),
+            _ => Tmo::Us(500),
         })
     }
     fn t3(u: &mut Unstructured, runtime: bool) -> arbitrary::Result<T3> {
@@ -1556,7 +1580,7 @@ pub fn decode(data: &[u8]) -> arbitrary::Result<Case> {
     if steps.is_empty() {
         return Err(arbitrary::Error::NotEnoughData);
     }
-    Ok(Case { unmanaged, runtime, max_size, pool_t, create, recycle, steps })
+    Ok(Case { unmanaged, runtime, max_size, pool_t, create, recycle, steps, via: flags >> 6 })
 }
 
 pub struct Tsim;
